@@ -20,7 +20,7 @@ func init() {
 		Rule: "one Handler (New / NewByCh with capacity 0,1,3,8) or an Actor spawn tree (depth <= 3, New / NewByOptions) and 1..8 (thorough 1..16) sender threads each posting a numbered sequence to one or several mailboxes; " +
 			"posted functions / effects log begin, yield, end; Close at the end followed by late Post/Send; oracles: exactly-once by the fair settle horizon, no overlap per mailbox, per-sender order, " +
 			"effect receives its own actor, parent/child registry, no cross-delivery, nothing submitted after Close runs; non-trivial = >=2 senders interleaved on one mailbox; distinct = distinct context-switch signature" +
-			" Flavours: messages submitted through unawaited AskChannel or AskOnceWithTimeout(<=0), Close while senders are active, the default Handler (package init re-run inside the simulation), the closed default Actor and orphans spawned from closed parents.",
+			" Flavours: messages submitted through unawaited AskChannel or AskOnceWithTimeout(<=0), Close while senders are active, an actor closing itself from inside its effect while senders are blocked or a backlog is buffered, the default Handler (package init re-run inside the simulation), the closed default Actor and orphans spawned from closed parents.",
 		Real:        []string{"fpgo.HandlerDef (run goroutine)", "fpgo.ActorDef (run goroutine, Spawn, registry)"},
 		Stub:        []string{"goroutine scheduler", "clock (advanced by >=1ns before each Spawn: actor ids are time.Now())", "posted functions / effects"},
 		Assumptions: []string{"actor ids are time.Now(); the harness advances the fake clock by 1ns before each actor creation (a real monotonic clock never returns the same reading twice to one goroutine)"},
@@ -28,16 +28,18 @@ func init() {
 }
 
 type c12Scenario struct {
-	Kind     string  `json:"kind"` // handler | actor
-	Cap      int     `json:"cap"`
-	Default  bool    `json:"default_handler,omitempty"`
-	Tree     []int   `json:"tree,omitempty"` // parent index of actor i (actor 0 is the root, parent -1)
-	Senders  [][]int `json:"senders"`        // per sender: target mailbox index of each item
-	Yields   int     `json:"yields_in_work"`
-	AskEvery int     `json:"every_nth_message_is_an_unawaited_ask,omitempty"`
-	NilMsgs  bool    `json:"a_nil_message_to_every_actor,omitempty"`
-	Early    bool    `json:"close_while_senders_active"`
-	EarlyD   int     `json:"close_delay_yields,omitempty"`
+	Kind          string  `json:"kind"` // handler | actor
+	Cap           int     `json:"cap"`
+	Default       bool    `json:"default_handler,omitempty"`
+	Tree          []int   `json:"tree,omitempty"` // parent index of actor i (actor 0 is the root, parent -1)
+	Senders       [][]int `json:"senders"`        // per sender: target mailbox index of each item
+	Yields        int     `json:"yields_in_work"`
+	AskEvery      int     `json:"every_nth_message_is_an_unawaited_ask,omitempty"`
+	NilMsgs       bool    `json:"a_nil_message_to_every_actor,omitempty"`
+	Early         bool    `json:"close_while_senders_active"`
+	EarlyD        int     `json:"close_delay_yields,omitempty"`
+	SelfClose     bool    `json:"closed_from_inside_the_effect,omitempty"`
+	SelfCloseItem int     `json:"self_close_at_item,omitempty"`
 
 	probes    map[string]int
 	h         *Hist
@@ -111,6 +113,16 @@ func genC12(t *simrt.Tape, tier string) Scenario {
 		// returned before Close was invoked must still be processed exactly once
 		sc.Early = true
 		sc.EarlyD = t.Choose(16)
+	} else if sc.Kind == "actor" && sc.nMailbox == 1 && t.Bool(1, 3) {
+		// ... or the actor closes itself from inside its effect while processing one of the messages
+		// (senders may be blocked in Send at that moment, a backlog may be buffered)
+		sc.Early = true
+		sc.SelfClose = true
+		total := 0
+		for _, it := range sc.Senders {
+			total += len(it)
+		}
+		sc.SelfCloseItem = t.Choose(total)
 	}
 	return sc
 }
@@ -126,6 +138,7 @@ func (sc *c12Scenario) Nontrivial(res *simrt.Result) bool {
 
 func (sc *c12Scenario) Run(s *simrt.Sim) {
 	h := &Hist{S: s}
+	var doClose func(who string)
 	work := func(it *c12Item, self int) {
 		it.begins = append(it.begins, s.Stamp())
 		it.gotSelf = append(it.gotSelf, self)
@@ -186,6 +199,10 @@ func (sc *c12Scenario) Run(s *simrt.Sim) {
 			}
 			if msg >= 0 && msg < len(sc.items) {
 				work(sc.items[msg], me)
+			}
+			if sc.SelfClose && msg == sc.SelfCloseItem && sc.closeInv == 0 && doClose != nil {
+				doClose("effect")
+				sc.probes["actor-closed-from-inside-its-effect"]++
 			}
 		}
 		for i, p := range sc.Tree {
@@ -299,11 +316,12 @@ func (sc *c12Scenario) Run(s *simrt.Sim) {
 		sc.probes["nil-messages-sent"]++
 	}
 	sendersDone := allDone(ths)
-	doClose := func(who string) {
+	doClose = func(who string) {
+		sc.closeInv = s.Stamp()
 		op := h.Do(who, "Close", nil, func() (interface{}, error) { closeAll(); return nil, nil })
 		sc.closeInv, sc.closeRet = op.Inv, op.Ret
 	}
-	if sc.Early {
+	if sc.Early && !sc.SelfClose {
 		s.Fault("close-while-senders-active")
 		s.Go("closer", func() {
 			for i := 0; i < sc.EarlyD; i++ {
